@@ -105,9 +105,10 @@ def beginFetch (d : DS) (treeSize n : Nat) : DS :=
 
 /-- the regenerated `fetchTail` arithmetic must give the model's start index -/
 def startAgrees (d : DS) (treeSize : Nat) : Option String :=
-  let s0 : Int := if d.cont then treeSize else if Gen.fetchTailNegStart d.cfgStart then treeSize else d.cfgStart
-  let s1 : Int := if Gen.fetchTailBeginWins d.pos s0 then d.pos else s0
-  if s1 != (passStart d.cont d.cfgStart treeSize d.pos : Nat) then some s!"regenerated fetchTail start {s1}, model {passStart d.cont d.cfgStart treeSize d.pos}"
+  -- the statement sequence of fetchTail, regenerated in the code's order
+  let (s1, e1, c1) := Gen.fetchTailRange d.cfgStart d.cfgEnd d.cont treeSize d.pos
+  let want : Int × Int × Bool := (((passStart d.cont d.cfgStart treeSize d.pos : Nat) : Int), (if d.cont then 0 else (d.cfgEnd : Int)), false)
+  if (s1, e1, c1) != want then some s!"regenerated fetchTail range ({s1}, {e1}, continuous={c1}), model ({want.1}, {want.2.1}, false)"
   else none
 
 def handleEvent (d : DS) (toks : List String) : DS × String :=
